@@ -144,6 +144,23 @@ RatAgrees == (RatSafe /\ K >= 1) =>
                LET W == RGS(F, rows, K) IN
                \A i \in 1..K : W[i] = [c \in 1..N |-> R(U[i][c], Dm(D, i - 1))]
 
+\* multiplying the rows by positive factors c_i changes neither the signs nor the normalised rows:
+\* u'_i = c_i (c_1 .. c_{i-1})^2 u_i  and  D'_i = (c_1 .. c_i)^2 D_i   (checked for c_i = 1 + (i mod 2), small states)
+RowFactor(i) == 1 + (i % 2)
+RECURSIVE SqProd(_)
+SqProd(i) == IF i = 0 THEN 1 ELSE RowFactor(i) * RowFactor(i) * SqProd(i - 1)
+RowScaleInvariant ==
+  K >= 1 =>
+    LET S == TLCEval([i \in 1..K |-> VScale(RowFactor(i), rows[i])])
+        g == GSAll(F, S, K)
+    IN g.ok => \A i \in 1..K : /\ g.D[i] = SqProd(i) * D[i]
+                                /\ g.U[i] = VScale(RowFactor(i) * SqProd(i - 1), U[i])
+\* a positive multiple of the form has leading minors of the same signs, hence the same signature
+FormScaleInvariant ==
+  rows = <<>> => \A c \in {2, 3} : \A k \in 1..N :
+    LET sub == TLCEval([i \in 1..k |-> [j \in 1..k |-> c * F[i][j]]])
+    IN ElimOk(sub) => Sgn(DetOf(sub)) = Sgn(LeadMinor(F, k))
+
 (***************************************************************************)
 (* Observation: one record per state                                       *)
 (***************************************************************************)
@@ -155,6 +172,9 @@ Obs == [n |-> N, F |-> F, pos |-> sig[1], neg |-> sig[2], rows |-> rows,
         eps |-> [i \in 1..K |-> Eps(D, i)],
         signed |-> SignedOrder(sig[1], sig[2]),
         minkowski |-> MinkowskiOrders(sig[1], sig[2]),
-        condk |-> CondK]
+        condk |-> CondK,
+        \* exact positive factors the harness multiplies row i / the form by (same expected values)
+        rowscale |-> [i \in 1..K |-> FoPick(PosScaleTable, FoWeight(rows) + i)],
+        fscale |-> FoPick(PosScaleTable, FoWeight(F))]
 EmitObs == PrintT("OBS " \o ToJson(Obs))
 =============================================================================
